@@ -371,41 +371,57 @@ def mem_watchdog(stop):
 
 
 # ----------------------------------------------------------------------------- replay
-def extract_values(h, art, workdir, failed, cap_t, cap_mem):
-    """Re-run CBMC on the prepared goto program with --trace restricted to ONE failed property and read
-    the solver's values of every vany() call (the local `zv_sym_val` in common/sym.rs) in execution order."""
-    name = h["name"]
-    out = os.path.join(workdir, name + ".out")
-    pick = next((f for f in failed if f["cls"] == "assertion"), failed[0])
-    cb = ["cbmc", "--no-malloc-may-fail", "--no-undefined-shift-check", "--no-signed-overflow-check", "--nan-check",
-          "--no-self-loops-to-assumptions", "--no-pointer-primitive-check", "--object-bits", "16"]
-    if art["unwind"] is not None:
-        cb += ["--unwind", str(art["unwind"])]
-    cb += h.get("cbmc", [])
-    # no --slice-formula here: slicing drops the assignments of vany() values that do not influence the failed
-    # property from the trace, and the native replay needs every value in call order
-    cb += ["--sat-solver", "cadical", out, "--trace", "--json-ui", "--property", pick["pid"]]
-    jpath = os.path.join(workdir, name + ".trace.json")
-    rc, to, _ = run_stage(name + "#trace", cb, jpath, cap_t, cap_mem)
+def _trace_values(jpath, pid):
+    """[(seq, bytes)] of the vany() calls recorded in a CBMC json trace for property pid, or None."""
     try:
         data = json.load(open(jpath))
     except Exception:
-        return None, pick
+        return None
     for item in data:
         for p in item.get("result", []) if isinstance(item, dict) else []:
-            if p.get("property") == pick["pid"] and p.get("status") == "FAILURE" and "trace" in p:
-                vals = []
+            if p.get("property") == pid and p.get("status") == "FAILURE" and "trace" in p:
+                out, cur = [], None
                 for st in p["trace"]:
-                    if st.get("stepType") == "assignment" and st.get("lhs") == "zv_sym_val" \
-                            and st.get("assignmentType") == "actual-parameter":
-                        v = st.get("value", {})
-                        b = v.get("binary")
-                        if b is None:
-                            return None, pick
-                        n = int(b, 2)
-                        vals.append(list(n.to_bytes(len(b) // 8, "little")))
-                # no named value found: harness crate uses an older common/sym.rs -> let the caller fall back
-                return (vals if vals else None), pick
+                    if st.get("stepType") != "assignment" or st.get("assignmentType") != "actual-parameter":
+                        continue
+                    lhs = st.get("lhs")
+                    b = st.get("value", {}).get("binary")
+                    if lhs == "zv_sym_val":
+                        cur = list(int(b, 2).to_bytes(len(b) // 8, "little")) if b is not None else []
+                    elif lhs == "zv_sym_seq" and b is not None:
+                        out.append((int(b, 2), cur if cur is not None else []))
+                        cur = None
+                return out
+    return None
+
+
+def extract_values(h, art, workdir, failed, cap_t, cap_mem):
+    """Re-run CBMC on the prepared goto program with --trace restricted to ONE failed property and read the
+    solver's values of every vany() call (parameters of common/sym.rs::zv_rec2) in execution order. The sliced
+    formula is tried first (cheap); values it dropped (gaps in the call numbering) are don't-cares and become
+    empty entries, which the native side reads as zero. Without a usable trace the unsliced formula is tried."""
+    name = h["name"]
+    out = os.path.join(workdir, name + ".out")
+    pick = next((f for f in failed if f["cls"] == "assertion"), failed[0])
+    base = ["cbmc", "--no-malloc-may-fail", "--no-undefined-shift-check", "--no-signed-overflow-check", "--nan-check",
+            "--no-self-loops-to-assumptions", "--no-pointer-primitive-check", "--object-bits", "16"]
+    if art["unwind"] is not None:
+        base += ["--unwind", str(art["unwind"])]
+    base += h.get("cbmc", []) + ["--sat-solver", "cadical"]
+    jpath = os.path.join(workdir, name + ".trace.json")
+    for slicing in (["--slice-formula"], []):
+        cb = base + slicing + [out, "--trace", "--json-ui", "--property", pick["pid"]]
+        run_stage(name + "#trace", cb, jpath, cap_t, cap_mem)
+        tv = _trace_values(jpath, pick["pid"])
+        if tv:
+            vals, expect = [], 1
+            for seq, b in tv:
+                while expect < seq:      # value sliced away: don't-care
+                    vals.append([])
+                    expect += 1
+                vals.append(b)
+                expect = seq + 1
+            return vals, pick
     return None, pick
 
 
